@@ -4,8 +4,11 @@
     [p] is the URI path of the request ([request.uri().path()]), any list of numbers.
     [percent_decode p] is its percent-decoding as BYTES (percent_encoding's rule).
     [sanitize_path] is the path part of [sanitize_request], [request_fs_path] the file path
-    [get_response] builds, [serve] the pipeline from [handle_cache] down to [read_file]. *)
-From KV Require Import Bytes PathSan PathSanProofs.
+    [get_response] builds, [serve] the pipeline from [handle_cache] down to [read_file];
+    [run_history] (Model/PathSanPipe.v) runs [serve] over a history of requests with the response
+    cache threaded through — the component that is compared with the real [kvarn::handle_cache] on a
+    fixture tree on every run. *)
+From KV Require Import Bytes PathSan PathSanProofs PathSanPipe PathSanPipeProofs.
 Open Scope N_scope.
 
 (** 1a. Lexical confinement.  An accepted path decodes to "/" ++ t; split t on '/' into
@@ -108,6 +111,38 @@ Theorem accepted_path_never_panics : forall host public p : bytes,
   sanitize_path p = Ok tt -> request_fs_path host public p <> Panic.
 Proof. exact request_fs_path_no_panic. Qed.
 
+(** 6. All histories.  [run_history c [] ops] is the list of answers of the fixture host [c] (any
+    host path, public directory, default extensions or none, response cache on or off, any table of
+    path-bound handlers, the file system being ANY tree without symbolic links) to ANY sequence of
+    requests (any method, target, Origin kind) and of steps that copy a stored cache entry to an
+    arbitrary other key.  Every body in every answer — whether computed or served from the cache — is
+    the error page, the CORS refusal, empty, the body of one of the operator's handlers, or the content
+    of a file reached from the public directory by descending through child names. *)
+Theorem history_bodies_confined :
+  forall (c : pcfg) (root cwd P : pos) (ops : list op),
+    benign_host (pc_host c) -> wf_pos root -> wf_pos cwd -> pc_fs c = read_path root cwd ->
+    resolve_path root cwd (h_path (pc_host c) ++ [c_slash] ++ h_public (pc_host c)) = Some P ->
+    Forall (answer_ok c P) (run_history c [] ops).
+Proof. exact history_bodies_confined_lemma. Qed.
+
+(** 7. In every cache state (whatever earlier requests and alias steps put there), a request whose
+    percent-decoded path is unsafe is answered 400 with the error page, no Prepare extension is
+    consulted or run (empty log), and the cache is left as it was. *)
+Theorem unsafe_request_is_400_in_every_state :
+  forall (c : pcfg) (cache : cache_t) (m t : bytes) (k : N) (p : bytes),
+    starts_with [c_slash] t = true -> uri_path t = Some p -> unsafe (percent_decode p) ->
+    step_request c cache m t k = (XL [XN 400; XB errpage; XL []], cache).
+Proof. exact unsafe_step_lemma. Qed.
+
+(** 8. When the CORS Prime extensions produce no override for a request, the host answers it (and
+    updates its cache) exactly as the same host WITHOUT any path-bound Prepare extension whose key
+    contains "./" would: the internal routes do not exist for such a request, in any cache state. *)
+Theorem internal_routes_need_override :
+  forall (c : pcfg) (cache : cache_t) (m t : bytes) (k : N),
+    benign_host (pc_host c) -> override_of (pc_default_ext c) m k = None ->
+    step_request (strip_internal c) cache m t k = step_request c cache m t k.
+Proof. exact no_override_strip_lemma. Qed.
+
 (** Non-vacuity. *)
 Definition ex_tree : node :=
   Dir [(B "host", Dir [(B "public", Dir [(B "index.html", File (B "INDEX")); (B "a", Dir [(B "b.txt", File (B "AB"))])]);
@@ -163,3 +198,24 @@ Example ex_one_decoding : decoded_for_use (B "/%252e%252e/x") = Some (B "/%2e%2e
 Proof. split; vm_compute; reflexivity. Qed.
 Example ex_benign : benign_host ex_host.
 Proof. exact benign_defaults. Qed.
+
+(** the fixture host of the examples as a pipeline configuration; a history with a cached file, a
+    rejected traversal in two spellings, a double-encoded name that stays inside, and an alias step *)
+Definition ex_pcfg : pcfg :=
+  {| pc_default_ext := true; pc_cache := true; pc_host := ex_host; pc_fs := read_path ex_root ex_root;
+     pc_handlers := [] |}.
+Example ex_history :
+  run_history ex_pcfg []
+    [OReq (B "GET") (B "/") 0; OReq (B "GET") (B "/index.html") 0; OReq (B "GET") (B "/../secret.txt") 0;
+     OAlias (B "/index.html") (B "/%2e%2e/secret.txt"); OReq (B "GET") (B "/%2e%2e/secret.txt") 0;
+     OReq (B "GET") (B "/%252e%252e/") 0; OReq (B "GET") (B "/a/b.txt") 2; OReq (B "GET") (B "/./cors_fail") 0]
+  = [XL [XN 200; XB (B "INDEX"); XL [XB (B "pf")]]; XL [XN 200; XB (B "INDEX"); XL []];
+     XL [XN 400; XB errpage; XL []]; XL [XN 1]; XL [XN 400; XB errpage; XL []];
+     XL [XN 404; XB errpage; XL [XB (B "pf")]]; XL [XN 403; XB cors_denied; XL []]; XL [XN 400; XB errpage; XL []]].
+Proof. vm_compute. reflexivity. Qed.
+Example ex_history_hyps :
+  benign_host (pc_host ex_pcfg) /\ wf_pos ex_root /\
+  resolve_path ex_root ex_root (h_path (pc_host ex_pcfg) ++ [c_slash] ++ h_public (pc_host ex_pcfg)) <> None.
+Proof. split; [exact benign_defaults|]. split; [constructor|vm_compute; discriminate]. Qed.
+Example ex_no_override : override_of true (B "GET") 0 = None /\ override_of true (B "GET") 2 = Some cors_fail.
+Proof. split; reflexivity. Qed.
